@@ -39,13 +39,16 @@ def _execute(record, root):
     chain = []
     for k, e in enumerate(out):
         c = e["op"]["cfg"]
-        tag = f"solve {k} batch={names} {record['method']} conv={c['conv']} sp2={c['sp2']} eps={c['eps']} uhf={c['uhf']} backward={c.get('backward', 0)} start={e['start']}({e.get('from')})"
+        tag = f"solve {k} batch={names} {record['method']} conv={c['conv']} sp2={c['sp2']} eps={c['eps']} uhf={c['uhf']} backward={c.get('backward', 0)} forces={c.get('grad', 'autodiff')} start={e['start']}({e.get('from')})"
         stats["solves_seen"] = stats.get("solves_seen", 0) + 1
         if e.get("exc"):
             stats["probes"]["solves_that_raised"] = stats["probes"].get("solves_that_raised", 0) + 1
             # every generated configuration is a documented, selectable way of solving a molecule inside the statement's
             # domain: a path that raises does not "yield the same energy"
-            if e.get("start_asymmetric") or e.get("from") == "fault:asym":
+            if e["exc"].startswith("NotImplementedError"):
+                # an explicit "not implemented" refusal before any result is produced is a documented domain boundary
+                stats["probes"]["refused_not_implemented"] = stats["probes"].get("refused_not_implemented", 0) + 1
+            elif e.get("start_asymmetric") or e.get("from") == "fault:asym":
                 # an asymmetric matrix is not a density any caller can hold: under this injected fault a solve may fail
                 # loudly (the Krylov solver does, with NaN -> ValueError); it may never return wrong data, which the
                 # comparisons below keep checking for every solve that does return
@@ -82,6 +85,8 @@ def _execute(record, root):
                 mx[name + "_over_tau"] = max(mx.get(name + "_over_tau", 0.0), val / tau)
                 if val > tol[K] * tau + tol["floor"]:
                     failures.append(core.fail(f"path-dependent/{name}", f"{tag}: molecule {m} ({names[m]}): {name} differ from the reference solve (cold, diagonalisation, Pulay, eps 1e-11) of the same geometry by {val:.3e} (bound {tol[K] * tau:.3e}, tau={tau:.1e}); both report converged"))
+        if c.get("grad"):
+            stats["probes"][f"{c['grad']}_force_solves"] = stats["probes"].get(f"{c['grad']}_force_solves", 0) + 1
         if c["conv"][0] == 3:
             stats["probes"]["krylov_solves"] = stats["probes"].get("krylov_solves", 0) + 1
         if c.get("backward"):
@@ -106,7 +111,7 @@ def _execute(record, root):
                 allowed = max(e0[m], tol["K_E"] * t1 + tol["floor"])
                 if e1[m] > allowed:
                     failures.append(core.fail("not-monotone", f"{tag1}: molecule {m}: tightening the threshold (tau {t0:.1e} -> {t1:.1e}) moved the energy AWAY from the limit ({e0[m]:.3e} -> {e1[m]:.3e} eV)"))
-    sig = [names, record["method"], [(e["op"]["cfg"]["conv"], e["op"]["cfg"]["sp2"], e["op"]["cfg"]["eps"], e["op"]["cfg"]["uhf"], e["op"]["cfg"].get("backward", 0), e["start"], e.get("from")) for e in out]]
+    sig = [names, record["method"], [(e["op"]["cfg"]["conv"], e["op"]["cfg"]["sp2"], e["op"]["cfg"]["eps"], e["op"]["cfg"]["uhf"], e["op"]["cfg"].get("backward", 0), e["op"]["cfg"].get("grad"), e["start"], e.get("from")) for e in out]]
     sample = {"session": record, "solves": [{"notconverged": e.get("notconverged"), "start": e["start"], "from": e.get("from"), "Etot": e.get("Etot")} for e in out]}
     dig = core.digest([[e.get("notconverged"), [round(v, 9) for v in (e.get("Etot") or [])]] for e in out])
     return core.Result.make(record, failures, stats, sig=sig, nontrivial=len(out) >= 2, sample=sample, digest_=dig)
@@ -129,6 +134,9 @@ class C04(core.Check):
         # record 1: the pinned history of DESIGN section 6 item 39 (Pulay, cold start, H2S next to a full-shell atom)
         pulay = {"eps": 1e-6, "conv": [2], "sp2": [False], "uhf": False}
         recs[1] = {"batch": ["h-", "h2s", "h2co"], "method": "AM1", "rotate": 11252395, "seed": 1056303067749, "i": 1, "ops": [{"op": "SOLVE", "cfg": dict(pulay, eps=1e-4), "start": "cold", "cap": 1000}, {"op": "SOLVE", "cfg": dict(pulay, conv=[1]), "start": "cold", "cap": 1000}, {"op": "SOLVE", "cfg": dict(pulay, conv=[0, 0.3]), "start": "cold", "cap": 1000}]}
+        # record 2: the pinned history of item 41 (Krylov solver with method PM6: refused, formerly a wrong density)
+        ksa = {"eps": 1e-8, "conv": [3, {"T_el": 300.0, "max_rank": 3, "err_threshold": 0.0}], "sp2": [False], "uhf": False}
+        recs[2] = {"batch": ["h2co"], "method": "PM6", "rotate": 5, "seed": 77, "i": 2, "ops": [{"op": "SOLVE", "cfg": dict(pulay, eps=1e-8), "start": "cold", "cap": 1000}, {"op": "SOLVE", "cfg": ksa, "start": "cold", "cap": 1000}, {"op": "SOLVE", "cfg": dict(pulay, eps=1e-8, conv=[1]), "start": "carried", "cap": 1000}]}
         return recs
 
     def shrink_candidates(self, rec):
